@@ -912,12 +912,11 @@ class C14(Suite):
 
     def classify(self, c, out):
         if c["kind"] == "plx":
-            ops = "+".join(sorted({o["op"] for o in c["ops"]}))
-            return "plx:%s:conn=%s" % (ops, c.get("connsize"))
+            return "plx:" + "+".join(sorted({o["op"] for o in c["ops"]}))
         ts = sorted({s["t"][0] for s in c["steps"] if s["m"] == "req"})
-        ms = sorted({s["m"] for s in c["steps"] if s["m"] not in ("req", "reg")})
+        conn = "+conn" if any(s["m"] == "fo" for s in c["steps"]) else ""
         ended = [r[0] for r in out.split(";")[:-1] if r and r[0] in "FCD"]
-        return "ref:%s:%s:%s%s" % (c["mode"], "".join(ts) or "-", "+".join(ms) or "-", (":" + ended[0]) if ended else "")
+        return "ref:%s:%s%s%s" % (c["mode"], "".join(ts) or "-", conn, (":" + ended[0]) if ended else "")
 
     def shrink(self, c):
         base = {k: v for k, v in c.items() if k in ("kind", "mode", "budget", "tags", "steps", "ops", "connsize")}
